@@ -7,7 +7,9 @@
 // exactly as app/reloader.go does (receiver.BuildReceiverIntegrations), send notifications through every integration
 // (against a succeeding sink, a failing sink, and a resolved notification), then print it again:
 //   (a) no canary in Config.String() (nor in its JSON / YAML marshalling, unless it was there before the use),
-//   (b) the text equals the text printed before the sends (= after building: building may complete defaults).
+//   (b) the text is a fixed point of notification traffic: building the integrations and the FIRST notification may
+//       complete defaults once (email.New fills default headers, pagerduty.Notify a default severity - existing,
+//       secret-free behaviour), every later round (failing sink, resolved, success again) leaves it unchanged.
 // Judged directly with the canaries; no model involved.
 package c17
 
@@ -232,6 +234,17 @@ func firstDiff(a, b string) string {
 	return fmt.Sprintf("%d -> %d lines", len(la), len(lb))
 }
 
+func (x *runner) judgeSecretFree(stage string, before, after texts, cs Case) {
+	if strings.Contains(after.str, marker) {
+		x.violate("secret-printed-after-use", "Config.String() of the live configuration shows a secret after "+stage+": ..."+excerpt(after.str)+"...", cs)
+	}
+	for _, p := range []struct{ name, b, a string }{{"JSON", before.js, after.js}, {"YAML", before.yml, after.yml}} {
+		if strings.Contains(p.a, marker) && !strings.Contains(p.b, marker) {
+			x.violate("secret-printed-after-use", p.name+" marshalling of the live configuration shows a secret after "+stage+": ..."+excerpt(p.a)+"...", cs)
+		}
+	}
+}
+
 func (x *runner) judgeUse(stage string, before, after texts, cs Case) {
 	if strings.Contains(after.str, marker) {
 		x.violate("secret-printed-after-use", "Config.String() of the live configuration shows a secret after "+stage+": ..."+excerpt(after.str)+"...", cs)
@@ -301,17 +314,21 @@ func (x *runner) useConfig(cfg *config.Config, s *sinks, cs Case, opts []commonc
 	if built.str != before.str {
 		x.run.Count("use", "text-completed-by-building-integrations")
 	}
-	if strings.Contains(built.str, marker) {
-		x.violate("secret-printed-after-use", "Config.String() shows a secret after building the receiver integrations: ..."+excerpt(built.str)+"...", cs)
-	}
-	for _, p := range []struct{ name, b, a string }{{"JSON", before.js, built.js}, {"YAML", before.yml, built.yml}} {
-		if strings.Contains(p.a, marker) && !strings.Contains(p.b, marker) {
-			x.violate("secret-printed-after-use", p.name+" marshalling shows a secret after building the receiver integrations: ..."+excerpt(p.a)+"...", cs)
-		}
-	}
+	x.judgeSecretFree("building the receiver integrations", before, built, cs)
 	before = built
 	now := time.Now()
-	for _, round := range rounds {
+	for ri, round := range rounds {
+		if ri == 1 {
+			// The first notification may still complete lazy defaults (pagerduty.Notify sets an empty severity to
+			// "error" on the config it was given): the text may change ONCE, without showing a secret. From then on
+			// it must be a fixed point of notification traffic.
+			first := render(cfg)
+			if first.str != before.str {
+				x.run.Count("use", "text-completed-by-first-notification")
+			}
+			x.judgeSecretFree("sending the first notifications through its integrations", before, first, cs)
+			before = first
+		}
 		s.fail.Store(round == "fail")
 		for i := range all {
 			in := &all[i]
@@ -359,7 +376,7 @@ func (x *runner) useStream(r *vh.Rand, nGenerated int) {
 		for _, k := range kindsIn {
 			x.run.Count("use_kinds", k)
 		}
-		x.useConfig(res.cfg, s, cs, nil, 3*time.Second, []string{"ok", "fail", "resolved"})
+		x.useConfig(res.cfg, s, cs, nil, 3*time.Second, []string{"ok", "fail", "resolved", "ok"})
 	}
 	// 2. generated accepted configurations (any shape the generator makes; their hosts do not exist, so every
 	//    connection is redirected to the sink: https requests fail in the handshake, http ones arrive)
@@ -380,7 +397,7 @@ func (x *runner) useStream(r *vh.Rand, nGenerated int) {
 			continue
 		}
 		cs := Case{Kind: "use", Seed: seed, YAML: text}
-		if x.useConfig(res.cfg, s, cs, []commoncfg.HTTPClientOption{redirect}, 1500*time.Millisecond, []string{"ok"}) {
+		if x.useConfig(res.cfg, s, cs, []commoncfg.HTTPClientOption{redirect}, 1500*time.Millisecond, []string{"ok", "ok"}) {
 			used++
 		}
 	}
